@@ -44,6 +44,16 @@ CHECKS = {
               "exactly; every table row and every predicted basis image is then replayed into the real functions in a float64 and a "
               "float32 session. By linearity the basis images fix fft/ifft/get_fourier_coefficients for every state on those grids."),
         note="TLC/SANY, the dump parser, numpy evaluation of cos on the grid; tolerance 1e-10 (x64) / 3e-5 (f32) relative to N^D*a"),
+    "C08": dict(
+        category="model_checking", design_ref="4/C08", engine="nonlin",
+        technique="TLC invariants ShiftOK/PermOK/VortSwapOK/EmbedOK on the exact sparse-spectrum machine (MC_Nonlin) + metamorphic replay of TLC-enumerated group elements on every public stepper",
+        text=("On every applied state of MC_Nonlin TLC checks that the output of a product of modes lives on sums of the input wavenumbers (translation "
+              "equivariance), that every isotropic term commutes with every axis permutation (channels permuted with the axes; the vorticity as a "
+              "pseudo-scalar flips sign), and that a state varying along one axis is mapped like the 1D term. The same group elements are replayed on "
+              "every public stepper class x argument variant x order x D x N odd/even: grid shifts on white-noise states (restricted to the "
+              "forcing-invariant axes for Kolmogorov flow), all axis permutations on Nyquist-free states, embeddings along every axis (with the "
+              "documented D*a_0 convention of the generic zeroth-order coefficient)."),
+        note="TLC, np.roll/transpose/broadcast as group actions, code-vs-code tolerance 1e-10; nonlinear terms bound to the specification by C03"),
     "C14": dict(
         category="model_checking", design_ref="4/C14", engine="rollout",
         technique="TLC state machine of rollout/repeat/windows (MC_Rollout) + replay of every terminal state + TLC trace validation (Trace_Rollout) of recorded executions",
@@ -113,7 +123,7 @@ def main():
              "kind_free_text": "TLC symbolic stage machine + coefficient cover + trace validation"},
             {"name": "validate", "path": "spec/MC_Validate.tla spec/Trace_Validate.tla harness/checks/c20.py", "serves_properties": ["C20"],
              "kind_free_text": "TLC decision tables + replay + hook-trace validation"},
-            {"name": "nonlin", "path": "spec/Nonlin.tla spec/MC_Nonlin.tla harness/nonlin.py harness/checks/c03.py", "serves_properties": ["C03"],
+            {"name": "nonlin", "path": "spec/Nonlin.tla spec/MC_Nonlin.tla harness/nonlin.py harness/checks/c03.py", "serves_properties": ["C03", "C08"],
              "kind_free_text": "TLC exact sparse-spectrum machine + spec->code replay"},
             {"name": "rollout", "path": "spec/MC_Rollout.tla spec/Trace_Rollout.tla harness/checks/c14.py", "serves_properties": ["C14"],
              "kind_free_text": "TLC state machine + replay + trace validation"},
